@@ -252,6 +252,7 @@ class LBRun(object):
     self.back_total = 0.0
     self.freeze_until = 0.0
     self.window_incomplete_until = 0.0
+    self.leave_in_next_jitter = None
     cfg = self.cfg
     initial = [PORT0 + i for i in cfg['initial']]
     self.ssp = HSSP(self, initial, cfg.get('getservers_delay_ms', 0) / 1000.0)
@@ -394,7 +395,17 @@ class LBRun(object):
     def try_expand(*a, **k):
       before = set(n.channel for n in lb._heap[1:])
       r = orig_try_expand(*a, **k)
-      self.expanded.update(n.channel for n in lb._heap[1:] if n.channel not in before)
+      added = [n for n in lb._heap[1:] if n.channel not in before]
+      self.expanded.update(n.channel for n in added)
+      if (a and a[0]) or k.get('leave_pending'):
+        # a jitter round has just pulled a member in: if the plan asked for it, an older active member leaves the
+        # server set now, i.e. while the newcomer is still connecting
+        want = self.leave_in_next_jitter
+        olds = sorted(n.endpoint.port for n in lb._heap[1:] if n.channel in before and n.endpoint.port in self.ssp.members)
+        if want is not None and added and olds:
+          self.leave_in_next_jitter = None
+          self.flags.add('member_left_during_jitter_round')
+          self.op_leave(olds[want % len(olds)] - PORT0)
       return r
 
     lb._AdjustAperture = adjust
@@ -891,6 +902,8 @@ class LBRun(object):
             self.note_removals(before_live)
       elif k == 'advance':
         advance(op[1] / 1000.0)
+      elif k == 'leave_in_jitter':
+        self.leave_in_next_jitter = op[1]
       elif k == 'clock_back':
         # the wall clock steps backwards (NTP correction, VM resume); time itself goes on
         self.clock_skew -= op[1]
